@@ -11,15 +11,15 @@ Init == cfg \in Configs /\ imported = FALSE /\ last = [class |-> "", exc |-> ""]
 
 Import == /\ ~imported /\ imported' = TRUE /\ UNCHANGED <<cfg, last, opened, connected>>   \* always succeeds
 
-InitDevice(dev, rw, ini) ==
+InitDevice(via, dev, rw, ini) ==
     /\ imported
-    /\ LET e == Expect(cfg, dev, rw, ini) IN
+    /\ LET e == ExpectVia(via, cfg, dev, rw, ini) IN
        /\ last' = [class |-> e.class, exc |-> e.exc]
        /\ opened' = e.opens
        /\ connected' = e.connects
     /\ UNCHANGED <<cfg, imported>>
 
-Next == Import \/ \E d \in DevStrings, rw \in BOOLEAN, i \in Initiators : InitDevice(d, rw, i)
+Next == Import \/ \E v \in Routes, d \in DevStrings, rw \in BOOLEAN, i \in Initiators : InitDevice(v, d, rw, i)
 Spec == Init /\ [][Next]_vars
 
 MissingRefusedBeforeOpen == last.exc # "" => opened = <<>> /\ connected = 0
